@@ -36,8 +36,33 @@ def flip(b: bytes, v: int) -> bytes:
     return bytes(o)
 
 
+def lib_encrypt(prot, pt, recs, aad, ser):
+    """the honest token made by joserfc, taken apart into the parts refimpl.jwe_encrypt returns"""
+    from joserfc import jwe
+    names = list(R.JWE_ALGS + R.JWE_1PU) + list(R.ENC)
+    reg = jwe.JWERegistry(algorithms=names)
+    key = J.jkey(J.pub(recs[0]["jwk"]))
+    kw = {"sender_key": J.jkey(recs[0]["sender"])} if recs[0].get("sender") else {}
+    if ser == "compact":
+        tok = jwe.encrypt_compact(dict(prot), pt, key, registry=reg, **kw)
+        h, ek, iv, ct, tag = tok.split(".")
+        rl = [{"header": None, "encrypted_key": R.b64d(ek)}]
+    else:
+        cls = jwe.FlattenedJSONEncryption if ser == "flattened" else jwe.GeneralJSONEncryption
+        obj = cls(dict(prot), pt, None, aad)
+        for _ in recs:
+            obj.add_recipient(None, key)
+            if ser == "flattened":
+                break
+        tok = jwe.encrypt_json(obj, None, registry=reg, **kw)
+        h, iv, ct, tag = tok["protected"], tok["iv"], tok["ciphertext"], tok["tag"]
+        rl = [{"header": r.get("header"), "encrypted_key": R.b64d(r.get("encrypted_key", ""))} for r in (tok["recipients"] if "recipients" in tok else [tok])]
+    return {"protected": h.encode(), "unprotected": None, "aad": aad, "iv": R.b64d(iv), "ciphertext": R.b64d(ct), "tag": R.b64d(tag),
+            "recipients": rl, "protected_dict": json.loads(R.b64d(h))}
+
+
 class Material:
-    def __init__(self, alg, enc, ser, n, haad):
+    def __init__(self, alg, enc, ser, n, haad, aligned=False):
         self.alg, self.enc, self.ser, self.n = alg, enc, ser, n
         kind = K.jwe_key_kind(alg, enc)
         self.r1, self.r2 = K.get(kind, 0), K.get(kind, 1)
@@ -48,6 +73,8 @@ class Material:
         if self.is1pu:       # sender keys distinct from the recipient's
             self.s1 = R.gen_like(self.r1); self.s2 = R.gen_like(self.r1)
         self.P = {1: b"plaintext of token one \x00\xff", 2: b"the second plaintext \x01\xfe!"}
+        if aligned:     # ciphertexts of exactly 4096 and 8192 octets under CBC (PKCS#7 pads 4090 -> 4096, 8180 -> 8192)
+            self.P = {1: (b"aligned plaintext one " * 200)[:4090], 2: (b"the second aligned plaintext " * 300)[:8180]}
         self.Av = {1: b"aad-one", 2: b"aad-two"}                 # AAD values the attacker may put on the wire
         self.A = self.Av if haad else {1: None, 2: None}        # AAD the honest tokens were made with
         self.T = {}
@@ -56,7 +83,9 @@ class Material:
             if alg.startswith("PBES2"):
                 prot["p2c"] = 8
             recs = [{"jwk": self.r1, "sender": self.s1, "where": "protected" if ser == "compact" else "header"} for _ in range(n)]
-            self.T[i] = R.jwe_encrypt(prot, self.P[i], recs, aad=self.A[i])
+            # block-aligned materials are produced by joserfc itself: what it leaves unauthenticated when producing AND
+            # consuming would never show on tokens whose tag an independent implementation computed
+            self.T[i] = lib_encrypt(prot, self.P[i], recs, self.A[i], ser) if aligned else R.jwe_encrypt(prot, self.P[i], recs, aad=self.A[i])
         d1 = self.T[1]["protected_dict"]
         self.R1 = R.b64e(json.dumps(d1, separators=(" , ", " : ")).encode())
         self.otherpub = R.public_jwk(R.gen_like(self.r1)) if self.r1["kty"] in ("EC", "OKP") else {"kty": "EC", "crv": "P-256", "x": "AA", "y": "AA"}
@@ -126,10 +155,10 @@ class Material:
 _MAT: dict = {}
 
 
-def material(alg, enc, ser, n, haad) -> Material:
-    k = (alg, enc, ser, n, haad)
+def material(alg, enc, ser, n, haad, aligned=False) -> Material:
+    k = (alg, enc, ser, n, haad, aligned)
     if k not in _MAT:
-        _MAT[k] = Material(alg, enc, ser, n, haad)
+        _MAT[k] = Material(alg, enc, ser, n, haad, aligned)
     return _MAT[k]
 
 
@@ -176,7 +205,12 @@ def run_batch(args):
             variants = [(seed + si * 7 + j * 13) % 997 for j in range(nvar)]
             if len(sc["edits"]) == 2 and w["ct"] == "CX" and (w["tag"] in ("Tshort", "Tlong") or w["iv"] in ("IVshort", "IVlong")):
                 variants = [2 * j for j in range(6)] + variants          # boundary shifts of 1..6 octets
-        for v in variants:
+        runs = [(m, v) for v in variants]
+        if w["ct"] in ("CX", "C2") or not sc["edits"]:
+            # the same behaviour on block-aligned long ciphertexts (4096 / 8192 octets): altered octets anywhere in them
+            ma = material(alg, enc, w["ser"], _orig_n(sc), w["haad"], True)
+            runs += [(ma, (seed * 31 + si * 977 + j * 4099) % 32768) for j in range(2)]
+        for m, v in runs:
             try:
                 tok = m.build(w, v)
             except Exception as e:  # noqa
